@@ -336,7 +336,7 @@ impl<'a> Gen<'a> {
 
     fn str_lit(&mut self) -> H {
         let pool: &[&str] = if self.cfg.odd_strings {
-            &["", "a", "b", "abc", "x y", "é", "日本", "it's", "q\"q", "a,b", "0", "k", "back\\slash", "😀"]
+            &["", "a", "b", "abc", "x y", "é", "日本", "it's", "q\"q", "a,b", "0", "k", "back\\slash", "😀", "two\nlines", "cr\r\nlf", "  lead\n   more", "tab\there", "// no comment", "end\\", "trail \n"]
         } else {
             &["", "a", "b", "abc", "x y", "a,b", "k", "zz", "0"]
         };
